@@ -393,7 +393,7 @@ func init() {
 
 	register(&Rule{
 		Name:  "NIL-FIELD",
-		Floor: 4,
+		Floor: 3,
 		Doc:   "Dictionary.fst and Dictionary.fstReader are legitimately nil (field without terms, empty segment); every method call on a value loaded from them is dominated by a nil test of that field in the same function (the establishing function (*Segment).dictionary is exempt)",
 		Run: func(c *Ctx, scope string, r *Report) {
 			dict := c.NamedType("Dictionary")
